@@ -302,13 +302,43 @@ def lines_unit(ctx, src):
         var_ok, bind = 'line_index == g_i', 'uint64_t line_index = g_i;'
     else:
         raise ExtractionBreak('format_data: the line loop runs over %r (expected line_start_address or line_index)' % var)
+    # -- state carried from one line to the next: a variable that the geometry statements or the loop header read, that is declared
+    #    in front of the loop and assigned somewhere in the rest of the body.  The control-flow slice of the body with respect to these
+    #    variables (vf.lex.slice_carried: their assignments, continue / break / return, every condition nondeterministic) becomes
+    #    part of the loop skeleton, so "line i starts at FD_LINE_START(i)" has to hold on EVERY path through the body.
+    from vf import lex
+    ftext = src.text(CC)
+    _, lbody, ls, le = lex.find_def(ftext, r'for \(uint64_t (?:line_index|line_start_address) = [^;]*;\s*[^;]*;\s*[^){]*\)', 'format_data line loop')
+    gm = re.search(r'uint8_t line_bytes = [^;]*;', lbody)
+    if not gm:
+        raise ExtractionBreak('format_data: geometry statements not found in the loop body')
+    raw_geom, rest = lbody[1:gm.end()], lbody[gm.end():-1]
+    declared = set(re.findall(r'\b(?:uint64_t|uint8_t|int64_t|size_t|bool|int)\s+(\w+)\s*=', raw_geom))
+    read = set(re.findall(r'\b[A-Za-z_]\w*\b', raw_geom + ' ' + cond + ' ' + step)) - declared - {var}
+    mrest = lex.mask(rest)
+    carried = sorted(x for x in read if re.search(r'(?<![\w.>])(?:(?:\+\+|--)\s*%s\b|%s\s*(?:\+\+|--|(?:[-+*/%%&|^]|<<|>>)?=(?!=)))' % (x, x), mrest))
+    if [x for x in carried if x != 'line_start_address']:
+        raise ExtractionBreak('format_data: loop-carried state %r feeds the line geometry (only line_start_address is specified)' % carried)
+    skeleton = lex.slice_carried(rest, carried + [var])
+    for r in PF:
+        skeleton = r.apply(skeleton)
+    inv_extra, assigns_extra = '', ''
+    if carried:
+        decl = re.findall(r'\buint64_t line_start_address = ([^;]*);', ftext[:ls])
+        if len(decl) != 1:
+            raise ExtractionBreak('format_data: %d declarations of the carried line_start_address in front of the loop' % len(decl))
+        pre += '\n  uint64_t line_start_address = %s;' % decl[0]
+        inv_extra, assigns_extra = ' && line_start_address == FD_LINE_START(g_i)', ', line_start_address'
+        bind += ' line_start_address = FD_LINE_START(g_i);   /* the loop invariant proved in fd_line_loop */'
     if bind == '':
         geom_l = 'uint64_t line_start_address = FD_LINE_START(g_i);\n    ' + geom
     else:
         geom_l = bind + '\n    ' + geom
+    u.raw('_Bool nondet_verif_bool(void);')
     u.raw('void fd_line_loop(uint64_t start_address, uint64_t total_size)\n{\n  %s\n  g_i = 0;\n  for (uint64_t %s = %s; %s; %s)\n'
-          '  __CPROVER_assigns(%s, g_i)\n  __CPROVER_loop_invariant(g_i <= FD_NLINES && %s)\n  __CPROVER_decreases(FD_NLINES - g_i)\n'
-          '  {\n    FD_LOOP_STEP\n  }\n}' % (pre, var, init, cond, step, var, var_ok))
+          '  __CPROVER_assigns(%s, g_i%s)\n  __CPROVER_loop_invariant(g_i <= FD_NLINES && %s%s)\n  __CPROVER_decreases(FD_NLINES - g_i)\n'
+          '  {\n    FD_LOOP_STEP\n    %s\n    /* control-flow slice of the rest of the body (carried: %s) */\n    %s\n  }\n}'
+          % (pre, var, init, cond, step, var, assigns_extra, var_ok, inv_extra, geom, ', '.join(carried + [var]), skeleton))
     u.raw('void fd_line(uint64_t start_address, uint64_t total_size, uint64_t flags)\n{\n  %s\n  int width_digits;\n  %s\n  g_width = width_digits;\n'
           '  {\n    %s\n    g_interior = %s;\n    FD_LINE_CHECKS\n  }\n}' % (pre, width, geom_l, interior))
     u.functions.append({'file': CC, 'cxx_header': 'void format_data(std::function<void(const void*, size_t)>, const iovec*, size_t, uint64_t, const iovec*, size_t, uint64_t) :: line loop (header, geometry statements, width selection, interior test)',
